@@ -1313,8 +1313,11 @@ func newC01Nodes(t *testing.T) *c01Nodes {
 		{From: T(2000), Assert: [][2]string{{didI + "#k2", i2}}, Auth: [][2]string{{didI + "#k3", i3}}},
 		{From: T(3000), Assert: [][2]string{{didI + "#k2", i2}, {didI + "#k1", i1b}}, Auth: [][2]string{{didI + "#k3", i3}}},
 	}
-	j1 := w.newKey(didJ + "#k1")
-	w.hist[didJ] = []c01Version{{From: T(-1000), Assert: [][2]string{{didJ + "#k1", j1}}}}
+	// issuer J: signs with #k10 at first; later a key whose id (#k1) is a PREFIX of that id is listed before it
+	// (key ids are compared for equality, not by prefix)
+	j1, j10 := w.newKey(didJ+"#k1"), w.newKey(didJ+"#k10")
+	w.hist[didJ] = []c01Version{{From: T(-1000), Assert: [][2]string{{didJ + "#k10", j10}}},
+		{From: T(110), Assert: [][2]string{{didJ + "#k1", j1}, {didJ + "#k10", j10}}}}
 	h1 := w.newKey(didH + "#k1")
 	w.hist[didH] = []c01Version{{From: T(-1000), Assert: [][2]string{{didH + "#k1", h1}}}}
 	o1 := w.newKey(didO + "#k1")
@@ -2064,6 +2067,46 @@ func statusScenario(t *testing.T, o *c01Out, rnd *rand.Rand, mode string, mutate
 			}
 		}
 	}
+	if mode == "" {
+		// credentials with SEVERAL credentialStatus entries (signed by the issuer's own key): the revoked entry is found whatever
+		// precedes it — an entry of another purpose, an entry of an unknown type, a revocation entry that is not set
+		var keepEntry, revokedEntry any
+		var doc map[string]any
+		for _, c := range list {
+			if !strings.HasPrefix(c.text, "{") {
+				continue
+			}
+			var m map[string]any
+			_ = json.Unmarshal([]byte(c.text), &m)
+			if c.revoke {
+				revokedEntry = m["credentialStatus"]
+				delete(m, "proof")
+				doc = m
+			} else {
+				keepEntry = m["credentialStatus"]
+			}
+		}
+		url, _ := revokedEntry.(map[string]any)["statusListCredential"].(string)
+		suspension := map[string]any{"id": url + "#99", "type": "StatusList2021Entry", "statusPurpose": "suspension", "statusListIndex": "99", "statusListCredential": url}
+		unknown := map[string]any{"id": "https://example.com/status/1", "type": "SomeOtherStatus2030"}
+		for _, v := range []struct {
+			tag     string
+			entries []any
+			revoked bool
+		}{{"suspension,revoked", []any{suspension, revokedEntry}, true}, {"unknown,revoked", []any{unknown, revokedEntry}, true},
+			{"unset,revoked", []any{keepEntry, revokedEntry}, true}, {"revoked,unset", []any{revokedEntry, keepEntry}, true},
+			{"suspension,unknown,unset", []any{suspension, unknown, keepEntry}, false}} {
+			d := deepCopy(doc).(map[string]any)
+			d["credentialStatus"] = v.entries
+			d["id"] = didJ + "#multi-" + strconv.Itoa(len(list))
+			n.w.asOf = issuedAt * 1000
+			signed, err := proof.NewLDProof(proof.ProofOptions{Created: time.Unix(issuedAt, 0).UTC()}).Sign(n.w.ctx, d, signature.JSONWebSignature2020{ContextLoader: n.w.loader, Signer: n.w.ks}, didJ+"#k1")
+			if err != nil {
+				t.Fatal(err)
+			}
+			list = append(list, sc{"status-multi[" + v.tag + "]:" + mode, mustJSON(signed), v.revoked})
+		}
+	}
 	cold := mode == "down-cold"
 	if cold {
 		n.http.mode = "down"
@@ -2072,6 +2115,7 @@ func statusScenario(t *testing.T, o *c01Out, rnd *rand.Rand, mode string, mutate
 		o.emit(map[string]any{"op": "statuslist", "url": url, "purpose": "revocation", "revoked": revoked, "available": !cold}, "statuslist")
 	}
 	verifyAll := func(tag string) {
+		n.w.asOf = time.Now().UnixMilli() // the verifier checks a downloaded status list credential at the current time
 		for _, c := range list {
 			n.run(o, c01Call{kind: "vc", text: c.text, at: &okAt, allowUntrusted: false, checkSig: true, label: c.label + tag, base: c.label,
 				mut: map[bool]string{true: "status-revoked", false: tag}[c.revoke], path: tag})
